@@ -207,6 +207,7 @@ func runC12(c *Ctx) {
 	c.Floor("C12.3-current-revision-assignments", nCur, 2)
 	c.currentRevisionChoice()
 	c.statusWriteGuard()
+	c.statusRetryShape("C12.5")
 }
 
 // afterSuccessfulWrite: the adjustment is unreachable on the error edge of the
